@@ -9,10 +9,10 @@ CONSTANTS
   DefRaws = {0,2}
   Ignores = {FALSE,TRUE}
   IgnTracks = {FALSE}
-  Names = {"A","B"}
+  Names = {"A"}
   MaxEntries = 1
   Prefixes = {"/upload"}
-  Focus = {"A","B","U"}
+  Focus = {"A","U"}
   Flips = {FALSE}
   Rounds = "short"
   DSec = 2
